@@ -77,5 +77,11 @@ TEXTS = {
         level_text="Fault enumeration: every crash point and every reconnect point is run as a fixed case on each run, plus generated combinations (tasks, environments, number of drops). The restart path exercised is the real one: stored framework id, subscription, implicit reconciliation, kill of unknown tasks.",
         level_note="Crash = SIGKILL of the core process (no graceful shutdown); the simulated master's reconciliation answer follows Mesos' implicit reconciliation (one update per non-terminal task).",
     ),
+    "C08": dict(
+        engine="simworld",
+        technique="property-based testing (rapid): generated hook sets (triggers, weights, await points incl. never-reached) over generated walks against the whole real core with the verifprobe plugin; oracle = ordering/await invariants over the joined history of probe reports, the core's transition-step events and executor commands; equal-weight hooks gated until all have started; round-trip property for trigger expressions",
+        level_text="Generated-configuration search: ~120 generated hook sets per quick run (~3700 thorough) plus fixed sets, each executed on the real environment state machine and hook machinery; the oracle checks every started call against the documented order, weight and await semantics. Exploration level: the space of hook sets x walks is unbounded.",
+        level_note="DESTROY / after_DESTROY hooks are undocumented teardown specials and outside the generator; hook tasks are covered in C09; probe reports of calls awaited later are asynchronous, so their arrival order is not used as start order.",
+    ),
 }
 NA_REASONS = {}
